@@ -124,6 +124,33 @@ class OsFacade:
     def fsync(self, fd):
         return None
 
+    def stat(self, path, *a, **k):
+        return self._w.stat(path)
+
+    lstat = stat
+
+    def access(self, path, mode=0):
+        w = self._w
+        p = w.abspath(path)
+        if p not in w.files and p not in w.dirs:
+            return False
+        if mode & _os.R_OK and p in w.unreadable:
+            return False
+        if mode & _os.W_OK and p in w.unwritable:
+            return False
+        return True
+
+    F_OK, R_OK, W_OK, X_OK = _os.F_OK, _os.R_OK, _os.W_OK, _os.X_OK
+
+    def listdir(self, path="."):
+        w = self._w
+        p = w.abspath(path)
+        if p not in w.dirs:
+            raise __import__("sim.world", fromlist=["oserror"]).oserror("ENOENT" if p not in w.files else "ENOTDIR", path)
+        pre = p.rstrip("/") + "/"
+        names = {q[len(pre):].split("/")[0] for q in list(w.files) + list(w.dirs) if q.startswith(pre) and q != p}
+        return sorted(names)
+
     def getpid(self):
         return 4242
 
